@@ -616,6 +616,9 @@ func Execute(spec *Spec, opt Options) *Result {
 	// $random/$shuffle draw from math/rand's global source: one run, one seed
 	rand.Seed(int64(spec.Seed)) //nolint:staticcheck // deliberate: reproducible global source
 	r.epochMs = opt.EpochMs
+	if setMapOrder(spec.MapDescending) {
+		res.Faults["map-order-descending"]++
+	}
 	if shift := setClockShift(spec.ClockShiftSec); shift != 0 {
 		r.epochMs += shift * 1000
 		res.Faults["clock-far-future"]++
